@@ -138,7 +138,18 @@ def print_axioms(modules):
 def run_driver(lines, timeout=600):
     """pipe op lines to the compiled model driver, return its output lines"""
     data = "\n".join(lines) + "\n"
-    r = subprocess.run([DRIVER], input=data, capture_output=True, text=True, timeout=timeout)
+    # another check running in parallel may be relinking the driver (lake replaces the file): wait for it
+    for attempt in range(120):
+        try:
+            r = subprocess.run([DRIVER], input=data, capture_output=True, text=True, timeout=timeout)
+            break
+        except (FileNotFoundError, PermissionError, OSError) as e:
+            if attempt == 119:
+                raise
+            import time
+            time.sleep(1)
+            with _Lock():   # a build in progress holds the lock; returning from it means the link finished
+                pass
     if r.returncode != 0:
         raise RuntimeError("aqdriver failed: " + r.stderr[-2000:])
     out = r.stdout.split("\n")
